@@ -79,6 +79,7 @@ std::string prop_generate(Tape & t, int size) {
     std::vector<int> sigs_on_disk;   // signals defined in the file a reader on file 0 sees
     bool wrote_samples = false;      // an fsr write for a defined signal was emitted since the writer was (re)opened
     int data_sig = -1;               // a signal known to hold samples in the file a reader on file 0 sees
+    int pending_big = -1;            // a big-block signal was just written: follow the rd_open with level-0 statistics requests
     for (int k = 0; k < n; ++k) {
         Call c;
         // call mix by state: with the writer closed, writer-side calls are no-ops in the executor, so reader / raw / copy calls
@@ -137,10 +138,31 @@ std::string prop_generate(Tape & t, int size) {
                             Call w; w.f = "fsr"; w.a = {id, -1, t.pick(std::vector<int64_t>{1, 9, 10, 11, 95, 100, 101, 250, 1000, 1005, 3333}), (int64_t) t.raw()}; push(w);
                             wrote_samples = true;
                         }
+                        // One finished file in eight also gets a big-block signal (samples_per_data beyond the 65536-entry minimum of the
+                        // reader's level-0 scratch buffers, more than one block of samples) and two statistics requests served from
+                        // raw samples, small signal first: the reader must grow its shared buffers between the two (seeded/C10d).
+                        if (t.chance(1, 8) && !twr) {
+                            int idb = 200 + (int) t.range(0, 40);
+                            const DType & dtb = *dtype_by_name(t.pick(std::vector<std::string>{"u8", "i16", "u4", "f32", "u1"}).c_str());
+                            int64_t spd = t.pick(std::vector<int64_t>{65544, 70000, 98304, 131072});
+                            int64_t sdf = t.pick(std::vector<int64_t>{8, 64, 4096});
+                            Call d; d.f = "signal"; d.a = {idb, 1, 0, (int64_t) dtb.code, 1000, spd, sdf, 16, 8, 0, 0}; d.s1 = gen_name(t, "b"); d.s2 = gen_name(t, "u"); push(d);
+                            sigs.push_back(idb);
+                            int64_t left = spd + t.range(1, 40000);
+                            while (left > 0) { int64_t nn = std::min<int64_t>(left, t.range(30000, 100000)); Call w; w.f = "fsr"; w.a = {idb, -1, nn, (int64_t) t.raw()}; push(w); left -= nn; }
+                            pending_big = idb;
+                        }
                         Call cl; cl.f = "wr_close"; cl.a = {0}; push(cl);
                         writer_open = false; sigs_on_disk = sigs;
                     }
-                    c.f = "rd_open"; c.a = {r, file}; rd_open[r] = true; break;
+                    c.f = "rd_open"; c.a = {r, file}; rd_open[r] = true;
+                    if (pending_big >= 0 && file == 0) {
+                        push(c);
+                        if (data_sig >= 0) { Call s1; s1.f = "rd_stats"; s1.a = {r, data_sig, 0, t.range(1, 9), t.range(1, 3), 0}; push(s1); }
+                        Call s2; s2.f = "rd_stats"; s2.a = {r, pending_big, t.range(0, 50), t.pick(std::vector<int64_t>{1, 3, 77, 1000, 70000}), t.range(1, 3), 0};
+                        c = s2; pending_big = -1;
+                    }
+                    break;
                 }
                 static const std::vector<std::string> F = {"rd_fsr", "rd_fsr", "rd_fsr", "rd_stats", "rd_stats", "rd_stats", "rd_len", "rd_annos", "rd_utc", "rd_user", "rd_signal", "rd_signals", "rd_s2t", "rd_t2s", "rd_fsr_f32", "rd_close"};
                 c.f = F[t.below((uint32_t) F.size())];
